@@ -32,7 +32,7 @@ ANCHORS = [
     "raggedshape.py::RaggedView2._calculate_lengths",
     "raggedshape.py::build_indices",
 ]
-RECVS = ["fresh", "lazyrows", "lazycols+2", "lazycols-1", "lazychain", "ufunc", "astype", "deepcopy", "pickle", "copy-of-lazy", "readonly", "saveload", "concat", "fromnumpy", "fromnumpy-F", "tonumpy-called", "subclass", "was-argument", "byteswapped", "unsafe", "ctype-alias", "own-shape", "lazytail-parent-used", "lens-refilled", "rslice-result", "buffer-subclass"]
+RECVS = ["fresh", "lazyrows", "lazycols+2", "lazycols-1", "lazychain", "ufunc", "astype", "deepcopy", "pickle", "copy-of-lazy", "readonly", "saveload", "concat", "fromnumpy", "fromnumpy-F", "tonumpy-called", "subclass", "was-argument", "byteswapped", "unsafe", "ctype-alias", "own-shape", "lazytail-parent-used", "lens-refilled", "rslice-result", "buffer-subclass", "fromnumpy-copied"]
 FLOOR_TAGS = ["recv:" + r_ for r_ in RECVS] + ["mask-as-list", "r:int", "r:slice+1", "r:slice+k", "r:slice-", "r:list", "r:array", "r:mask", "r:ell",
               "c:none", "c:int+", "c:int-", "c:slice+1", "c:slice+k", "c:slice-",
               "must-refuse", "sel-has-empty-row", "ellipsis-padded", "pairs:1d", "pairs:outer", "pairs:2d", "pairs:row-int", "e-first", "e-last", "e-mid", "e-consec", "allempty", "norows"]
@@ -68,6 +68,17 @@ def build_receiver(recv, flat, lens):
     if recv == "pickle":
         import pickle
         return pickle.loads(pickle.dumps(RA(flat.copy(), list(lens)))), None
+    if recv == "fromnumpy-copied":
+        # built from a 2-D numpy array (when the rows are equally long), then copied by pickle / deepcopy: whatever the original kept about its
+        # source matrix, the copy is an array of its own
+        import pickle
+        import copy
+        n_ = len(lens)
+        if n_ and lens[0] > 0 and len(set(lens)) == 1:
+            x_ = RA.from_numpy_array(flat.copy().reshape(n_, lens[0]))
+        else:
+            x_ = RA(flat.copy(), list(lens))
+        return (pickle.loads(pickle.dumps(x_)) if (n_ + sum(lens)) % 2 else copy.deepcopy(x_)), None
     if recv == "copy-of-lazy":      # a deep copy taken of an unmaterialised selection
         import copy
         lazy, parent = build_receiver("lazycols+2", flat, lens)
